@@ -215,6 +215,20 @@ add(
     "DESIGN.md 6/C06",
 )
 
+add(
+    "C13",
+    "fault_enumeration",
+    "Generated fault placement: on_trial_error injected at any point of any trial's life for every scheduler / searcher family (incl. GP "
+    "single- and multi-fidelity) through the protocol driver, and failing / externally stopped jobs under the real Tuner over the scripted "
+    "back-end with max_failures 0..5. Oracle: no scheduler call raises after a failure, no failed trial resumed, failed configuration not "
+    "re-suggested, other trials' pending evaluations / rung entries / bracket slots unchanged across on_trial_error, exactly one "
+    "on_trial_error per failed run, failure limit enforced with an error naming a failed trial. 2e4 histories + 480 GP + 6e3 Tuner runs quick.",
+    "Fault positions are generated (Hypothesis), complete enumeration only in C05's small systems. Three listed known findings "
+    "(synchronous Hyperband promotes failed trials when too few valid results remain; two DEHB crashes) are excluded and counted.",
+    "property-based testing with fault injection (Hypothesis choice tape places failures in generated histories): invariants before/after the fault",
+    "DESIGN.md 6/C13",
+)
+
 NOT_YET = {}
 
 ALL = [f"C{i:02d}" for i in range(1, 21)]
